@@ -8,7 +8,7 @@ bad=0
 for d in "$V"/benign/*/; do
   git -C "$WT" checkout -q -- . && git -C "$WT" apply "$d/patch.diff" || { echo "$(basename $d): patch does not apply"; bad=1; continue; }
   for c in $(cat "$d/checks.txt"); do
-    out=$(cd "$V" && GCMPY_REPO="$WT" ./check $c 2>&1); rc=$?
+    out=$(cd "$V" && GCMPY_REPO="$WT" VERIF_EVIDENCE_DIR=/tmp/verif_evidence_scratch ./check $c 2>&1); rc=$?
     echo "$(basename $d) $c exit=$rc"
     [ $rc -eq 0 ] || { bad=1; echo "$out" | grep -E 'VIOLATION|violation key|INFRA' | head -3; }
   done
